@@ -71,6 +71,7 @@ class Ctx:
     replay_extra = None
 
     def violation(self, signature, description, replay=None):
+        signature = "_".join(signature.split())       # signatures are single tokens (known_findings.txt is space separated)
         if self.replay_extra and isinstance(replay, dict):
             replay = dict(replay, **self.replay_extra)
         # cap memory, keep the first of each signature + a few
